@@ -46,14 +46,22 @@ def isPass (c : Case) : Bool := !c.hasFailure && !c.hasError && !c.hasSkip
 def isError (c : Case) : Bool := !c.hasSuccess && !c.hasSkip && c.hasError
 def isFailure (c : Case) : Bool := !c.hasSuccess && !c.hasSkip && !c.hasError && c.hasFailure
 def isSkip (c : Case) : Bool := c.hasSkip
-def isFlakyPass (c : Case) : Bool := c.hasSuccess && decide (c.execs.length > 1)
+/-- `FlakyPasses`.  `strict` (regenerated from the condition in the source): the repaired counter
+    `Success() != nil && Skip() == nil && (len(Failures()) > 0 || len(Errors()) > 0)`; otherwise the
+    original `Success() != nil && len(Executions) > 1`. -/
+def isFlakyPassWith (strict : Bool) (c : Case) : Bool :=
+  if strict then c.hasSuccess && !c.hasSkip && (c.hasFailure || c.hasError)
+  else c.hasSuccess && decide (c.execs.length > 1)
+
+def flakyStrictOf (cond : String) : Bool :=
+  cond == "(len(C.Failures()) > 0 || len(C.Errors()) > 0) && C.Skip() == nil && C.Success() != nil"
 
 def tests (l : List Case) : Nat := l.length
 def passes (l : List Case) : Nat := l.countP isPass
 def errors (l : List Case) : Nat := l.countP isError
 def failures (l : List Case) : Nat := l.countP isFailure
 def skips (l : List Case) : Nat := l.countP isSkip
-def flakyPasses (l : List Case) : Nat := l.countP isFlakyPass
+def flakyPassesWith (strict : Bool) (l : List Case) : Nat := l.countP (isFlakyPassWith strict)
 
 /-- `TestCases.AllSucceeded` -/
 def allSucceeded (l : List Case) : Bool := l.all fun c => c.hasSuccess || c.hasSkip
